@@ -28,6 +28,7 @@ type genCfg struct {
 	allowSP            bool
 	noBranches         bool
 	opcodes            []string // restrict to these opcodes (curated executable subset), if non-nil
+	pressureTail       bool     // before the final RET read every virtual register (all simultaneously live)
 }
 
 type vreg struct {
@@ -469,6 +470,9 @@ func (g *fgen) generate() *ir.Function {
 	}
 	pendingSnaps := map[string][]snap{} // forward branches to a label not yet placed
 	labelSnap := map[string]snap{}      // defined lanes at an already placed label
+	if g.cfg.pressureTail && r.chance(2, 3) {
+		g.emitPressureHead()
+	}
 	for i := 0; i <= n; i++ {
 		for _, l := range labelAt[i] {
 			if r.chance(1, 8) {
@@ -492,6 +496,9 @@ func (g *fgen) generate() *ir.Function {
 		}
 		var inst *ir.Instruction
 		isBranch := !g.cfg.noBranches && len(g.labels) > 0 && r.intn(100) < g.cfg.branchPct
+		if i == n-1 && g.cfg.pressureTail {
+			g.emitPressureTail()
+		}
 		if i == n-1 && !(g.cfg.malformed && r.chance(1, 8)) && r.chance(9, 10) {
 			inst, _ = x86.VerifBuild("RET", nil, nil)
 		} else if !isBranch && r.chance(1, 40) && i > 0 {
@@ -539,6 +546,87 @@ func (g *fgen) generate() *ir.Function {
 		}
 	}
 	return g.fn
+}
+
+// emitPressureHead defines every virtual register up front.
+func (g *fgen) emitPressureHead() {
+	for _, v := range g.virt {
+		var inst *ir.Instruction
+		switch v.kind {
+		case reg.KindGP:
+			switch v.r.Mask() {
+			case reg.S8L.Mask():
+				inst, _ = x86.VerifBuild("MOVB", nil, []operand.Op{operand.U8(1), v.r})
+			case reg.S16.Mask():
+				inst, _ = x86.VerifBuild("MOVW", nil, []operand.Op{operand.U16(1), v.r})
+			case reg.S32.Mask():
+				inst, _ = x86.VerifBuild("MOVL", nil, []operand.Op{operand.U32(1), v.r})
+			default:
+				inst, _ = x86.VerifBuild("MOVQ", nil, []operand.Op{operand.U64(1 << 40), v.r})
+			}
+		case reg.KindVector:
+			x := v.r
+			switch x.Mask() {
+			case reg.S128.Mask():
+				inst, _ = x86.VerifBuild("MOVOU", nil, []operand.Op{operand.NewParamAddr("x", 0), x})
+			case reg.S256.Mask():
+				inst, _ = x86.VerifBuild("VMOVDQU", nil, []operand.Op{operand.NewParamAddr("x", 0), x})
+			default:
+				inst, _ = x86.VerifBuild("VMOVDQU64", nil, []operand.Op{operand.NewParamAddr("x", 0), x})
+			}
+		case reg.KindOpmask:
+			inst, _ = x86.VerifBuild("KMOVQ", nil, []operand.Op{operand.NewParamAddr("x", 0), v.r})
+		}
+		if inst != nil {
+			g.noteDefs(inst)
+			g.fn.AddInstruction(inst)
+			g.stats["head_defs"]++
+		}
+	}
+}
+
+// emitPressureTail reads every virtual register that has defined lanes, so that
+// all of them are live from their definition to the end of the function.
+func (g *fgen) emitPressureTail() {
+	for _, v := range g.virt {
+		var inst *ir.Instruction
+		switch v.kind {
+		case reg.KindGP:
+			for _, c := range []struct {
+				s  reg.Spec
+				op string
+			}{{reg.S64, "ADDQ"}, {reg.S32, "ADDL"}, {reg.S16, "ADDW"}, {reg.S8L, "ADDB"}, {reg.S8H, "ADDB"}} {
+				if v.defined&c.s.Mask() == c.s.Mask() || (!g.cfg.strict && c.s == reg.S64) {
+					dst := asSpec(reg.RAX, c.s)
+					if c.s == reg.S8H {
+						dst = reg.AL
+					}
+					inst, _ = x86.VerifBuild(c.op, nil, []operand.Op{asSpec(v.r, c.s), dst})
+					break
+				}
+			}
+		case reg.KindVector:
+			for _, c := range []struct {
+				s  reg.Spec
+				op string
+			}{{reg.S512, "VPADDD"}, {reg.S256, "VPADDD"}, {reg.S128, "VPADDD"}} {
+				if v.defined&c.s.Mask() == c.s.Mask() || (!g.cfg.strict && c.s == reg.S128) {
+					x := asSpec(v.r, c.s)
+					d := asSpec(reg.X0, c.s)
+					inst, _ = x86.VerifBuild(c.op, nil, []operand.Op{x, d, d})
+					break
+				}
+			}
+		case reg.KindOpmask:
+			if v.defined != 0 || !g.cfg.strict {
+				inst, _ = x86.VerifBuild("KORQ", nil, []operand.Op{v.r, reg.K1, reg.K1})
+			}
+		}
+		if inst != nil {
+			g.fn.AddInstruction(inst)
+			g.stats["tail_reads"]++
+		}
+	}
 }
 
 // ---------------------------------------------------------------------------
